@@ -429,6 +429,7 @@ Lemma outs_load_dump : forall e clear s,
 Proof.
   intros. unfold load_dump.
   destruct (stored (sr (nd s))) as [[sn|]|]; auto.
+  destruct (clear && (eidx (s_e1 sn) <=? applied (nd s))); auto.
   destruct (self_ver (nd s) <? s_ver sn); auto.
   set (s1 := upd (fun n => n <| hist := s_hist sn |> <| enabled_ver := s_ver sn |>) s).
   set (s2 := if clear then s1 else _).
@@ -719,9 +720,15 @@ Proof.
         destruct (view_inv _ _ (view_send_next_idx from None false true (load_dump e true s7)))
           as (_ & _ & _ & _ & _ & _ & _ & _ & _ & _ & _ & Y).
         now rewrite Y, LA.
-    + apply K.
-      * destruct (view_inv _ _ (view_ae_commit c None s7)) as (_ & _ & _ & _ & _ & _ & _ & _ & X & _). now rewrite X.
-      * destruct (view_inv _ _ (view_ae_commit c None s7)) as (_ & _ & _ & _ & _ & _ & _ & _ & _ & _ & _ & X). now rewrite X.
+    + destruct done.
+      * destruct (outs_load_dump e true s7) as [LF LA]. apply K.
+        -- destruct (view_inv _ _ (view_ae_commit c None (load_dump e true s7))) as (_ & _ & _ & _ & _ & _ & _ & _ & X & _).
+           now rewrite X, LF.
+        -- destruct (view_inv _ _ (view_ae_commit c None (load_dump e true s7))) as (_ & _ & _ & _ & _ & _ & _ & _ & _ & _ & _ & X).
+           now rewrite X, LA.
+      * apply K.
+        -- destruct (view_inv _ _ (view_ae_commit c None s7)) as (_ & _ & _ & _ & _ & _ & _ & _ & X & _). now rewrite X.
+        -- destruct (view_inv _ _ (view_ae_commit c None s7)) as (_ & _ & _ & _ & _ & _ & _ & _ & _ & _ & _ & X). now rewrite X.
 Qed.
 
 (* what a delivered message can make the node fire: LEADER_CHANGED (a new leader shows up, or the
